@@ -1,6 +1,378 @@
-"""Solver checks that are not Kani harnesses (SMT encodings generated from the current source)."""
+"""Solver checks that are not Kani harnesses: SMT queries generated from the MIR of /repo's current
+source (rustc nightly -Zunpretty=mir), decided by z3 and cvc5 (both must agree).
 
-REGISTRY = {}
+Currently: the contract of the crate-private integer division kernels `softposit::lldiv` (i64) and
+`softposit::div` (i32) that the C01/C13/C16 division harnesses stub:
+
+    for n >= 0, d > 0:   no panic,  q*d + r == n,  0 <= r < d          where (q, r) = kernel(n, d)
+
+Bit-blasting this never finishes (DESIGN §4: the SAT solver must prove uniqueness of the quotient
+through a 64-bit multiplier), so the kernel's MIR is translated into linear/non-linear INTEGER
+arithmetic that keeps the machine semantics explicitly (every i64/i32 value is range-constrained,
+`AddWithOverflow`/`SubWithOverflow` produce the wrapped value and the overflow flag, Rust's
+truncating `/` and `%` are defined from SMT-LIB's `div` by cases on the signs). In that encoding the
+division lemma is the solver's own axiom for `div`/`mod`, and the queries are decided in
+milliseconds. The translator handles exactly the MIR constructs that occur in loop-free integer
+functions (see `Translator`); anything else is reported as INCONCLUSIVE, never guessed.
+"""
+import json
+import os
+import re
+import shutil
+import subprocess
+import time
+
+REPO = "/repo"
+ROOT = os.path.dirname(os.path.dirname(os.path.abspath(__file__)))
+BUILD = os.path.join(ROOT, ".build")
+ENV = dict(os.environ, CARGO_NET_OFFLINE="true", CARGO_TERM_COLOR="never")
+ENV.pop("RUSTFLAGS", None)
+
+WIDTH = {"i64": 64, "i32": 32, "i16": 16, "i8": 8, "isize": 64}
+
+
+def dump_mir():
+    out = os.path.join(BUILD, "softposit.mir")
+    os.makedirs(BUILD, exist_ok=True)
+    # force re-emission: -Zunpretty prints only when the crate is actually compiled
+    os.utime(os.path.join(REPO, "src", "lib.rs"), None) if False else None
+    tgt = os.path.join(BUILD, "mir-target")
+    shutil.rmtree(os.path.join(tgt, "debug", ".fingerprint"), ignore_errors=True)
+    p = subprocess.run(["cargo", "+nightly", "rustc", "--offline", "--lib", "--", "-Zunpretty=mir", "-C", "debug-assertions=off", "-C", "overflow-checks=on"],
+                       cwd=REPO, env=dict(ENV, CARGO_TARGET_DIR=tgt), capture_output=True, text=True)
+    if p.returncode != 0 or "fn " not in p.stdout:
+        raise RuntimeError("MIR dump failed: " + p.stderr[-300:])
+    open(out, "w").write(p.stdout)
+    return p.stdout
+
+
+def mir_fn(mir, name):
+    """text of the first (runtime, not CTFE) MIR body of a free function"""
+    m = re.search(r"^fn %s\((.*?)\) -> (.*?) \{\n(.*?)^\}\n" % re.escape(name), mir, re.M | re.S)
+    if not m:
+        return None
+    return m.group(1), m.group(2), m.group(3)
+
+
+class Unsupported(Exception):
+    pass
+
+
+class Translator:
+    """symbolic execution of a loop-free MIR body over mathematical integers with explicit machine
+    semantics. Produces, per path: path condition, panic obligations, return value terms."""
+
+    def __init__(self, params, ret, body):
+        self.types = {}
+        for p in params.split(","):
+            p = p.strip()
+            if p:
+                n, t = p.split(":")
+                self.types[n.strip()] = t.strip()
+        self.ret = ret.strip()
+        for m in re.finditer(r"let (?:mut )?(_\d+): (.*?);", body):
+            self.types[m.group(1)] = m.group(2)
+        self.blocks = {}
+        for m in re.finditer(r"^    (bb\d+): \{\n(.*?)^    \}", body, re.M | re.S):
+            self.blocks[m.group(1)] = [l.strip() for l in m.group(2).strip().split("\n") if l.strip()]
+        self.paths = []
+
+    def width(self, place):
+        t = self.types.get(place)
+        if t in WIDTH:
+            return WIDTH[t]
+        raise Unsupported("type of %s: %s" % (place, t))
+
+    @staticmethod
+    def const(tok):
+        m = re.match(r"const (-?\d+)_(i\d+|isize)$", tok)
+        if m:
+            return m.group(1) if not m.group(1).startswith("-") else "(- %s)" % m.group(1)[1:], m.group(2)
+        m = re.match(r"const (i\d+)::MIN$", tok)
+        if m:
+            return "(- %d)" % (1 << (WIDTH[m.group(1)] - 1)), m.group(1)
+        m = re.match(r"const (i\d+)::MAX$", tok)
+        if m:
+            return "%d" % ((1 << (WIDTH[m.group(1)] - 1)) - 1), m.group(1)
+        raise Unsupported("constant " + tok)
+
+    def operand(self, env, tok):
+        tok = tok.strip()
+        m = re.match(r"(?:copy|move) (_\d+)$", tok)
+        if m:
+            if m.group(1) not in env:
+                raise Unsupported("use of unassigned " + m.group(1))
+            return env[m.group(1)]
+        m = re.match(r"(?:copy|move) \((_\d+)\.(\d): \w+\)$", tok)
+        if m:
+            return env[m.group(1)][int(m.group(2))]
+        if tok.startswith("const "):
+            if tok in ("const true", "const false"):
+                return tok[6:]
+            return self.const(tok)[0]
+        raise Unsupported("operand " + tok)
+
+    def run(self, args):
+        self.paths = []
+        self._exec("bb0", dict(args), [], [], 0)
+        return self.paths
+
+    def _exec(self, bb, env, pc, obligations, depth):
+        if depth > 64:
+            raise Unsupported("path too long (loop?)")
+        env = dict(env)
+        obligations = list(obligations)
+        pc = list(pc)
+        for line in self.blocks[bb]:
+            if line.startswith(("StorageLive", "StorageDead", "debug ", "nop")):
+                continue
+            if line == "return;":
+                self.paths.append({"pc": pc, "obligations": obligations, "ret": env.get("_0")})
+                return
+            m = re.match(r"goto -> (bb\d+);", line)
+            if m:
+                return self._exec(m.group(1), env, pc, obligations, depth + 1)
+            m = re.match(r"switchInt\((.*?)\) -> \[0: (bb\d+), otherwise: (bb\d+)\];", line)
+            if m:
+                c = self.operand(env, m.group(1))
+                self._exec(m.group(2), env, pc + ["(not %s)" % c], obligations, depth + 1)
+                self._exec(m.group(3), env, pc + [c], obligations, depth + 1)
+                return
+            m = re.match(r"assert\((!?)(.*?), \"(.*?)\".*\) -> \[success: (bb\d+), unwind.*\];", line)
+            if m:
+                c = self.operand(env, m.group(2))
+                good = "(not %s)" % c if m.group(1) == "!" else c
+                obligations.append({"cond": good, "pc": list(pc), "msg": m.group(3)})
+                pc.append(good)
+                return self._exec(m.group(4), env, pc, obligations, depth + 1)
+            m = re.match(r"(_\d+) = (.*);$", line)
+            if m:
+                env[m.group(1)] = self.rvalue(env, m.group(1), m.group(2))
+                continue
+            raise Unsupported("statement: " + line)
+        raise Unsupported("block %s falls through" % bb)
+
+    def rvalue(self, env, dst, rv):
+        rv = rv.strip()
+        m = re.match(r"(\w+)\((.*), (.*)\)$", rv)
+        if m and m.group(1) in ("Eq", "Ne", "Lt", "Le", "Gt", "Ge", "BitAnd", "BitOr", "Div", "Rem", "AddWithOverflow", "SubWithOverflow", "Add", "Sub"):
+            op, a, b = m.group(1), self.operand(env, m.group(2)), self.operand(env, m.group(3))
+            if op in ("Eq", "Ne", "Lt", "Le", "Gt", "Ge"):
+                t = {"Eq": "(= %s %s)", "Ne": "(not (= %s %s))", "Lt": "(< %s %s)", "Le": "(<= %s %s)", "Gt": "(> %s %s)", "Ge": "(>= %s %s)"}[op]
+                return t % (a, b)
+            if op in ("BitAnd", "BitOr"):
+                if self.types.get(dst) != "bool":
+                    raise Unsupported("bitwise op on integers")
+                return "(%s %s %s)" % ("and" if op == "BitAnd" else "or", a, b)
+            if op == "Div":
+                return "(tdiv %s %s)" % (a, b)
+            if op == "Rem":
+                return "(trem %s %s)" % (a, b)
+            w = None
+            t = self.types.get(dst, "")
+            mm = re.match(r"\((i\d+), bool\)", t)
+            if op.endswith("WithOverflow"):
+                if not mm:
+                    raise Unsupported("overflow op type " + t)
+                w = WIDTH[mm.group(1)]
+                s = "(%s %s %s)" % ("+" if op.startswith("Add") else "-", a, b)
+                lo, hi = -(1 << (w - 1)), (1 << (w - 1)) - 1
+                ovf = "(or (< %s (- %d)) (> %s %d))" % (s, -lo, s, hi)
+                wrapped = "(wrap%d %s)" % (w, s)
+                return (wrapped, ovf)
+            raise Unsupported("unchecked " + op)
+        m = re.match(r"\((.*), (.*)\)$", rv)
+        if m:
+            return (self.operand(env, m.group(1)), self.operand(env, m.group(2)))
+        if re.match(r"(copy|move|const) ", rv):
+            return self.operand(env, rv)
+        raise Unsupported("rvalue: " + rv)
+
+
+PRELUDE = """(set-logic ALL)
+(define-fun tdiv ((a Int) (b Int)) Int (ite (>= a 0) (ite (> b 0) (div a b) (- (div a (- b)))) (ite (> b 0) (- (div (- a) b)) (div (- a) (- b)))))
+(define-fun trem ((a Int) (b Int)) Int (- a (* b (tdiv a b))))
+(define-fun wrap64 ((a Int)) Int (- (mod (+ a 9223372036854775808) 18446744073709551616) 9223372036854775808))
+(define-fun wrap32 ((a Int)) Int (- (mod (+ a 2147483648) 4294967296) 2147483648))
+"""
+
+
+def solve(script, timeout=60):
+    """returns {solver: 'sat'|'unsat'|'unknown'|'error'}, model text from z3 if sat"""
+    res, model, secs = {}, "", 0.0
+    path = os.path.join(BUILD, "q_%d.smt2" % os.getpid())
+    open(path, "w").write(script)
+    for name, cmd in (("z3", ["z3", "-T:%d" % timeout, path]), ("cvc5", ["cvc5", "--lang", "smt2", "--tlimit=%d" % (timeout * 1000), "--produce-models", path])):
+        t0 = time.time()
+        try:
+            p = subprocess.run(cmd, capture_output=True, text=True, timeout=timeout + 10)
+            out = p.stdout.strip()
+        except subprocess.TimeoutExpired:
+            out = "unknown"
+        secs += time.time() - t0
+        first = out.split("\n")[0].strip() if out else "error"
+        res[name] = first if first in ("sat", "unsat", "unknown") else "error"
+        if res[name] == "unsat" and "(error" in out.split("\n", 1)[0]:
+            res[name] = "error"
+        if res[name] == "sat" and not model:
+            model = out
+    os.unlink(path)
+    return res, model, secs
+
+
+class DivContract:
+    name = "div_kernel_contract"
+    tier = "quick"
+
+    def __init__(self):
+        self.kernels = [("lldiv", "i64", 64), ("div", "i32", 32)]
+
+    def run(self, prop, tier, seed, replay_native):
+        r = {"name": self.name, "queries": 0, "queries_unsat": 0, "solver_s": 0.0, "samples": [], "violations": [], "inconclusive": [], "functions": [],
+             "assumptions": ["SMT-LIB integer semantics of div/mod (z3 4.8.12 and cvc5 1.0 must both answer unsat)", "the MIR printed by rustc nightly -Zunpretty=mir for the current /repo source (overflow checks on)"]}
+        t0 = time.time()
+        try:
+            mir = dump_mir()
+        except RuntimeError as e:
+            r["inconclusive"].append(str(e))
+            return r
+        r["mir_dump_s"] = round(time.time() - t0, 1)
+        for fname, ty, w in self.kernels:
+            f = mir_fn(mir, fname)
+            if not f:
+                r["inconclusive"].append("no free function `%s` in the MIR of this tree (renamed/inlined?) — the stubbed division harnesses depend on it" % fname)
+                continue
+            r["functions"].append("softposit::%s (MIR -> SMT, integer encoding)" % fname)
+            try:
+                tr = Translator(*f)
+                paths = tr.run({"_1": "n", "_2": "d"})
+            except (Unsupported, KeyError) as e:
+                r["inconclusive"].append("%s: MIR construct outside the translator: %s" % (fname, e))
+                continue
+            lo, hi = -(1 << (w - 1)), (1 << (w - 1)) - 1
+            decl = PRELUDE + "(declare-const n Int)\n(declare-const d Int)\n(assert (and (>= n 0) (<= n %d) (> d 0) (<= d %d)))\n" % (hi, hi)
+            queries = []
+            for i, p in enumerate(paths):
+                pc = " ".join(p["pc"]) or "true"
+                for ob in p["obligations"]:
+                    pre = " ".join(ob["pc"]) or "true"
+                    queries.append(("%s path %d: no panic `%s`" % (fname, i, ob["msg"][:50]), "(assert (and %s))\n(assert (not %s))" % (pre, ob["cond"])))
+                q, rr = p["ret"]
+                queries.append(("%s path %d: q*d + r == n, 0 <= r < d, results in range" % (fname, i),
+                                "(assert (and %s))\n(assert (not (and (= (+ (* %s d) %s) n) (>= %s 0) (< %s d) (>= %s 0) (<= %s %d))))" % (pc, q, rr, rr, rr, q, q, hi)))
+            # the paths cover every input (no path condition gap)
+            queries.append(("%s: the %d paths cover every (n, d)" % (fname, len(paths)), "(assert (not (or %s)))" % " ".join("(and %s)" % (" ".join(p["pc"]) or "true") for p in paths)))
+            # dedupe identical queries (assertions repeated on several paths)
+            seen = set()
+            for desc, body in queries:
+                if body in seen:
+                    continue
+                seen.add(body)
+                script = decl + body + "\n(check-sat)\n"
+                res, model, secs = solve(script)
+                r["queries"] += 1
+                r["solver_s"] += secs
+                verdicts = set(res.values())
+                rec = {"query": desc, "bound": "every n in [0, 2^%d), d in (0, 2^%d) — the whole call-site domain and more" % (w - 1, w - 1), "solvers": res, "solver_s": round(secs, 3)}
+                if verdicts == {"unsat"}:
+                    r["queries_unsat"] += 1
+                    rec["verdict"] = "UNSAT (holds for every input in the bound)"
+                elif "sat" in verdicts:
+                    _, model, _ = solve(decl + body + "\n(check-sat)\n(get-model)\n")
+                    mn = re.search(r"\(define-fun n \(\) Int\s+(\(- \d+\)|\d+)\)", model)
+                    md = re.search(r"\(define-fun d \(\) Int\s+(\(- \d+\)|\d+)\)", model)
+                    vals = [int(re.sub(r"[^\d]", "", x.group(1))) * (-1 if "-" in x.group(1) else 1) if x else None for x in (mn, md)]
+                    nat = self.native(fname, ty, vals)
+                    rec["verdict"] = "SAT"
+                    rec["model"] = vals
+                    rec["native"] = nat
+                    if nat.get("violates"):
+                        r["violations"].append({"kind": "extra", "check": self.name, "kernel": fname, "n": vals[0], "d": vals[1], "query": desc, "native": nat,
+                                                "summary": "softposit::%s(%s, %s): %s" % (fname, vals[0], vals[1], nat.get("out"))})
+                    else:
+                        r["inconclusive"].append("%s: solver model (%s) does not reproduce natively: %s" % (desc, vals, nat))
+                        r["machinery"] = "non-reproducing SMT model"
+                else:
+                    r["inconclusive"].append("%s: solvers answered %s" % (desc, res))
+                    rec["verdict"] = "undecided"
+                r["samples"].append(rec)
+            # translator validation: concrete points through the encoding and through the real source text
+            pts = [(0, 1), (7, 2), (hi, 1), (hi, hi), (1 << (w - 3), (1 << (w // 2 - 2)) + 1), (12345678901234 % hi, 97), (5, 9)]
+            bad = 0
+            for (n, d) in pts:
+                nat = self.native(fname, ty, [n, d])
+                if nat.get("error"):
+                    r["inconclusive"].append("native copy of %s failed: %s" % (fname, nat["error"]))
+                    bad = -1
+                    break
+                if "q" not in nat:
+                    continue  # the source panics/hangs here: nothing to compare (reported by the queries above)
+                # which (q, r) does the encoding give?
+                found = None
+                for p in paths:
+                    pcs = " ".join(p["pc"]) or "true"
+                    script = PRELUDE + "(define-fun n () Int %d)\n(define-fun d () Int %d)\n(assert (and %s))\n(declare-const q Int)(declare-const r Int)\n(assert (and (= q %s) (= r %s)))\n(check-sat)\n(get-value (q r))\n" % (n, d, pcs, p["ret"][0], p["ret"][1])
+                    pr = subprocess.run(["z3", "-T:20", "-in"], input=script, capture_output=True, text=True)
+                    if pr.stdout.startswith("sat"):
+                        mm = re.findall(r"\(([qr]) (\(- \d+\)|\d+)\)", pr.stdout)
+                        found = tuple(int(re.sub(r"[^\d]", "", v)) * (-1 if "-" in v else 1) for _, v in mm)
+                if found != (nat.get("q"), nat.get("r")):
+                    bad += 1
+                    r["inconclusive"].append("translator validation: encoding gives %s, the compiled source gives (%s, %s) at %s(%d, %d)" % (found, nat.get("q"), nat.get("r"), fname, n, d))
+                    r["machinery"] = "MIR translator disagrees with the compiled source"
+            r.setdefault("translator_validation", []).append({"kernel": fname, "points": len(pts), "disagreements": max(bad, 0)})
+        r["solver_s"] = round(r["solver_s"], 2)
+        return r
+
+    def native(self, fname, ty, vals):
+        """compile the kernel's own source text (cut out of /repo/src/lib.rs) and run it on (n, d)"""
+        src = open(os.path.join(REPO, "src", "lib.rs")).read()
+        m = re.search(r"(const fn %s\(.*?\n\}\n)" % re.escape(fname), src, re.S)
+        if not m:
+            return {"error": "source of %s not found in src/lib.rs" % fname}
+        d = os.path.join(BUILD, "kernel_native")
+        os.makedirs(d, exist_ok=True)
+        main = m.group(1) + """
+fn main() {
+    let a: Vec<String> = std::env::args().collect();
+    let n: %s = a[1].parse().unwrap(); let d: %s = a[2].parse().unwrap();
+    let (q, r) = %s(n, d);
+    println!("{} {}", q, r);
+}
+""" % (ty, ty, fname)
+        srcp = os.path.join(d, fname + ".rs")
+        binp = os.path.join(d, fname)
+        changed = True
+        try:
+            changed = open(srcp).read() != main
+        except OSError:
+            pass
+        if changed or not os.path.exists(binp):
+            open(srcp, "w").write(main)
+            p = subprocess.run(["rustc", "-C", "overflow-checks=on", "-o", binp, srcp], capture_output=True, text=True, env=ENV)
+            if p.returncode != 0:
+                return {"error": p.stderr[-300:]}
+        try:
+            p = subprocess.run([binp, str(vals[0]), str(vals[1])], capture_output=True, text=True, timeout=10)
+        except subprocess.TimeoutExpired:
+            return {"violates": True, "out": "hang"}
+        if p.returncode != 0:
+            return {"violates": True, "out": "panic: " + p.stderr.strip()[:200]}
+        q, r = [int(x) for x in p.stdout.split()]
+        n, dd = vals
+        ok = q * dd + r == n and 0 <= r < dd
+        return {"violates": not ok, "q": q, "r": r, "out": "(q, r) = (%d, %d)" % (q, r)}
+
+    def replay(self, rec):
+        nat = self.native(rec["kernel"], "i64" if rec["kernel"] == "lldiv" else "i32", [rec["n"], rec["d"]])
+        print("replay softposit::%s(%s, %s): %s" % (rec["kernel"], rec["n"], rec["d"], nat))
+        if nat.get("violates"):
+            print("VIOLATION property=%s replay=%s" % (rec.get("property", "C01"), rec.get("path", "")))
+            return 1
+        return 0
+
+
+REGISTRY = {"C01": [DivContract()]}
 
 
 def checks_for(prop, tier):
